@@ -195,8 +195,15 @@ class chain(AsyncIterator[T]):
         """
         return cls(_iterables=iterable)
 
-    def __anext__(self) -> Awaitable[T]:
-        return self._iterator.__anext__()
+    async def __anext__(self) -> T:
+        try:
+            return await self._iterator.__anext__()
+        except StopAsyncIteration:
+            raise
+        except BaseException:
+            # the chain failed: also release the owned iterables not reached yet
+            await self.aclose()
+            raise
 
     async def aclose(self) -> None:
         for iterable in self._owned_iterators:
